@@ -92,6 +92,9 @@ def r_edit(prog, tier):
                 ok = False
             elif not rel:
                 ok = False      # every token is renumbered, whatever its position
+            if ok is False and amount and loop is not None and loop.kind == 'iter' and isinstance(loop.ast.iter, ast.Call) \
+                    and unparse(loop.ast.iter.func).split('.')[-1] in ('filter', 'filterfalse', 'takewhile', 'dropwhile', 'islice'):
+                ok = None       # the selection of the tokens sits in the iterator of the loop, which is not followed
         why = why_nested if why_nested else 'tokens with number > the removed one are decremented by 1, over all terminals of the root' if ok else \
             'guard `removed < token number`: %s, removed number taken from the leaf: %s, loop over all terminals: %s, ' \
             'amount 1: %s' % (bool(g), src_ok, over_all, amount)
@@ -125,6 +128,10 @@ def r_edit(prog, tier):
                 ok = False
             elif not rel:
                 ok = False
+            lp_ = cfg.nodes[n.loops[-1]] if n.loops else None
+            if ok is False and amount and lp_ is not None and lp_.kind == 'iter' and isinstance(lp_.ast.iter, ast.Call) \
+                    and unparse(lp_.ast.iter.func).split('.')[-1] in ('filter', 'filterfalse', 'takewhile', 'dropwhile', 'islice'):
+                ok = None       # the selection of the tokens sits in the iterator of the loop, which is not followed
         why = 'tokens numbered >= the position move up by 1, the new token takes the position, then it is attached' \
             if ok else 'guard `position <= token number`: %s, new token numbered with the position: %s, shift before ' \
             'attach: %s, amount 1: %s' % (bool(g), bool(newnum), before, amount)
